@@ -26,7 +26,14 @@ def family(pid, tier, seed):
         # with AllowTrailing
         lf = leak_family(rng, True)
         rng.shuffle(lf)
-        for g in lf[: (30 if quick else 120)]:
+        # (every kind of choice point of the schema at least once, whatever the seed; the rest at random)
+        firsts, rest, seen_cp = [], [], set()
+        for g in lf:
+            cp = (g.get("schema") or ["?"])[0]
+            (rest if cp in seen_cp else firsts).append(g)
+            seen_cp.add(cp)
+        lf = firsts + rest
+        for g in lf[: (max(40, len(firsts) + 10) if quick else 130)]:
             g["ks"] = [0, 1, -1]
             g["inputs"] = g["inputs"][:40]
             gs.append(g)
